@@ -38,7 +38,7 @@ class Gen:
         if p in ("fanout", "drain", "big"):
             # (more than ~130 keys of one layer put a 17th border under one interior node: interior_split;
             # a descending fill splits among the low children = the "pending pair goes left" branch)
-            n = {"fanout": r.choice([120, 120, 200]), "drain": 260, "big": 4000}[p]
+            n = {"fanout": r.choice([120, 120, 200]), "drain": 260, "big": 1500}[p]
             w = r.choice([2, 3, 4, 6, 8])
             base = r.choice([b"", b"k", b"\x00", b"\xff\xff"])
             for i in range(n):
